@@ -1,7 +1,8 @@
 (** Property C02 — dynamic values cannot change document structure (HTML escaping).
     OBLIGATIONS: C02_escape_chars C02_unescape_escape C02_escape_injective C02_dynamic_text_code
-                 C02_dynamic_attr_always_escaped C02_nonvacuous *)
-From GV Require Import Base.GoStr Proofs.EscapeProofs Compiler.Emit Proofs.EmitProofs Proofs.DynamicProofs.
+                 C02_dynamic_attr_always_escaped C02_fragment_values_only_escaped
+                 C02_escaped_segment_is_inert C02_nonvacuous *)
+From GV Require Import Base.GoStr Proofs.EscapeProofs Compiler.Emit Proofs.EmitProofs Proofs.DynamicProofs Proofs.SegProofs.
 Open Scope N_scope.
 
 (** an escaped value contains no angle bracket and no quote of either kind: it cannot open or close a tag or an attribute value *)
@@ -44,6 +45,25 @@ Theorem C02_dynamic_attr_always_escaped : forall sm (origin : token) st1,
     lit ")+""\""""); __err != nil { return }" ++ [10].
 Proof. exact dynamic_attr_value_code. Qed.
 Print Assumptions C02_dynamic_attr_always_escaped.
+
+(** over whole templates of the fragment of Proofs/SegProofs.v (static markup, interpolation, scripts, dynamic and
+    conditional attributes, brace-less blocks): the generated body is a [denotes] run for [segs_list body], in which
+    an expression occurs only as [SDyn] / [SDynQ] — html-escaped by [eval_segs] — or as the Go statement of a block *)
+Theorem C02_fragment_values_only_escaped : forall o body,
+  Forall dyn_node body ->
+  exists m' code, denotes 2 false m' code (segs_list body) /\ item_err (Node (KGoht o) body) = None /\
+    item_text (Node (KGoht o) body) =
+      lit "func " ++ t_lit o ++ c_gohtEntry ++ code ++ (if m' then close_text (Lo 2) else []) ++ c_gohtExit.
+Proof. exact dyn_template_code. Qed.
+Print Assumptions C02_fragment_values_only_escaped.
+
+(** an escaped value contributes no markup character to the document *)
+Theorem C02_escaped_segment_is_inert : forall rho t b,
+  In b (eval_segs rho [SDyn t]) -> ~ meta b.
+Proof.
+  intros rho t b H. unfold eval_segs in H. cbn in H. rewrite app_nil_r in H. exact (escape_chars _ _ H).
+Qed.
+Print Assumptions C02_escaped_segment_is_inert.
 
 Example C02_nonvacuous : html_escape (lit "<a href=""x"">&'") = lit "&lt;a href=&#34;x&#34;&gt;&amp;&#39;".
 Proof. vm_compute. reflexivity. Qed.
